@@ -172,7 +172,7 @@ for _cls, _n in (('Line', 2), ('QuadraticBezier', 3), ('CubicBezier', 4), ('Path
     _mk(_cls, _n)
 
 
-@contract('C07', 'path.inv_arclength', params=[{'kind': k, 'scipy': s, '_bounded_only': True} for k in ('L', 'Q', 'C', 'LQC') for s in (True,)])
+@contract('C07', 'path.inv_arclength', params=[{'kind': k, 'scipy': s, '_bounded_only': True} for k in ('L', 'Q', 'C', 'LQC', 'LLL') for s in (True,)])
 def ilength_inverts_length_sampled(c, kind, scipy):
     """bounded stand-in: at coordinate scales 1e-3..1e6, for s on a grid including the ends,
     ilength returns (does not raise or spin), lands in [0,1], inverts length to the larger of
@@ -210,6 +210,15 @@ def ilength_inverts_length_sampled(c, kind, scipy):
         prev = t
     c.ensures('ilength(0)==0', obj.ilength(0) == 0)
     c.ensures('ilength(L)==1', obj.ilength(L) == 1)
+    if len(kind) > 1:
+        # s exactly at the end of a segment inside the path (a running sum of segment lengths)
+        run = 0.0
+        for k in range(len(segs) - 1):
+            run += segs[k].length()
+            out = c.outcome(lambda: obj.ilength(run))
+            c.ensures('returns-for-s-at-a-segment-boundary', out.kind == 'ok')
+            if out.kind == 'ok':
+                c.ensures('segment-boundary:length(0,t)==s-to-tolerance', abs(obj.length(0, out.value) - run) <= max(1e-9, 1e-9 * L))
     for bad in (-0.5 * L, 1.5 * L):
         out = c.outcome(lambda: obj.ilength(bad))
         c.ensures('ValueError-outside-[0,L]', out.kind == 'raise' and out.exc == 'ValueError')
